@@ -6,10 +6,28 @@ Model._post_checks, Model.delay_arguments_function.
   duration mentions time, a state, a derivative, an algebraic variable or a non-fixed input;
 * for accepted models z3 proves every (expression, duration) output of delay_arguments_function
   equal to the reference meaning (ast2z3) of the source arguments for ALL values.
+
+Families (all generated; see main()):
+* single: one delay() per model, every category alone / in pairs / composites (the original family);
+* rewrite: durations that are a BARE symbol which some simplification pass itself rewrites (alias of
+  a state / negated / of an algebraic variable / of a fixed input, constant-assigned algebraic
+  variable, parameter and constant with an expression binding, plain parameter / constant / ...),
+  crossed with every pass that substitutes delay arguments (detect_aliases, replace_constant_values,
+  replace_constant_expressions, replace_parameter_expressions, replace_parameter_values,
+  eliminate_constant_assignments, expand_vectors, all together);
+* multi: two delay() calls per model, every ORDERED pair of categories (incl. integer and real
+  literals), in five placements (two scalar equations, scalar then loop, loop then scalar, both in
+  one loop, both in one equation): every duration must be validated and the arguments must come
+  out in source order;
+* sequence: transfer_model called three times on the same folder with cache=True (thorough: also
+  codegen=True): every call must give the same verdict and, for accepted models, a
+  delay_arguments_function (of the Model and of the CachedModels) equal to the source arguments.
 """
 import itertools
 import os
+import re
 import shutil
+import sqlite3
 import sys
 import tempfile
 import traceback
@@ -73,6 +91,125 @@ def durations(tier):
     return out
 
 
+# ---- family "rewrite": bare-symbol durations x passes that rewrite that very symbol ---------------
+HEAD_RW = """model M
+  Real x(start = 1);
+  Real a, b, y;
+  Real a2, an, aa, af, k;
+  Real v[3];
+  Real w[3];
+  input Real u;
+  input Real uf(fixed = true);
+  parameter Real p = 2;
+  parameter Real q = 2 * p;
+  constant Real c = 3;
+  constant Real c2 = 2 * c;
+equation
+  der(x) = -x + u;
+  a = 2 * x;
+  b = a + uf * p + c;
+  a2 = x;
+  an = -x;
+  aa = a;
+  af = uf;
+  k = 3;
+"""
+ALWAYS, NEVER = (lambda o: True), (lambda o: False)
+# name -> (text, allowed(options)).  The category of an eliminated variable is that of what it is
+# replaced by: an alias of a fixed input IS the fixed input once detect_aliases removed it, a
+# constant-assigned algebraic variable IS a constant once eliminate_constant_assignments moved it.
+RW_ATOMS = {
+    "alias_state": ("a2", NEVER), "neg_alias_state": ("an", NEVER), "alias_alg": ("aa", NEVER),
+    "alias_fixed_input": ("af", lambda o: bool(o.get("detect_aliases"))),
+    "const_assigned_alg": ("k", lambda o: bool(o.get("eliminate_constant_assignments"))),
+    "param_expr": ("q", ALWAYS), "const_expr": ("c2", ALWAYS),
+    "alias_state+param": ("a2 + p", NEVER), "neg(neg_alias_state)": ("-an", NEVER),
+    "const_expr*param_expr": ("c2 * q", ALWAYS), "const_expr+alias_alg": ("c2 + aa", NEVER),
+}
+RW_ATOMS.update({k: (t, (ALWAYS if ok else NEVER)) for k, (t, ok) in ATOMS.items()})
+RW_OPTSETS = [
+    ("default", {}), ("aliases", {"detect_aliases": True}), ("consts", {"replace_constant_values": True}),
+    ("cexpr", {"replace_constant_expressions": True}), ("pexpr", {"replace_parameter_expressions": True}),
+    ("eca", {"eliminate_constant_assignments": True}), ("expand", {"expand_vectors": True}),
+    ("pvals", {"replace_parameter_values": True}),
+    ("inline", {"replace_parameter_expressions": True, "replace_constant_expressions": True, "replace_constant_values": True,
+                "eliminate_constant_assignments": True, "detect_aliases": True}),
+]
+
+
+def rewrite_items(tier):
+    items = []
+    for (k, (dur, okf)), (on, o) in itertools.product(RW_ATOMS.items(), RW_OPTSETS):
+        variants = [(False, "x"), (True, "3 * v[i] * p")]
+        if tier == "thorough":
+            variants += [(False, "a * x + b + c2"), (True, "v[i]"), (False, "aa - an"), (True, "q * v[i] + c")]
+        for n, (loop, e) in enumerate(variants):
+            if "c2" in dur + e and o.get("replace_constant_values") and not o.get("replace_constant_expressions"):
+                # replacing constant VALUES while a constant still has an expression binding leaves 'c' free in every
+                # function of the model (dae_residual included): documented precondition of that option, not C22's subject
+                continue
+            if loop:
+                body = f"  y = b;\n  for i in 1:3 loop\n    v[i] = i * a * p;\n    w[i] = delay({e}, {dur});\n  end for;\n"
+            else:
+                body = f"  y = delay({e}, {dur});\n  for i in 1:3 loop\n    v[i] = i * a;\n    w[i] = v[i];\n  end for;\n"
+            items.append((f"rw:dur={k}|loop={int(loop)}|e{n}|{on}", HEAD_RW + body + "end M;\n", okf(o), o, 1))
+    return items
+
+
+# ---- family "multi": two delays, ordered pairs of categories, five placements -------------------------
+M_ATOMS = dict(ATOMS, int_literal=("2", True))
+HEAD_M = HEAD.replace("Real a, b, y;", "Real a, b, y, y2;").replace("  Real w[3];\n", "  Real w[3];\n  Real r[3];\n")
+# NB every symbol of a delayed expression inside a loop also occurs elsewhere in the loop body: generate()
+# asserts that (generator.exitForEquation), a limitation of the translation, not of the duration checks.
+_LOOP0 = "  for i in 1:3 loop\n    v[i] = i * a;\n    w[i] = v[i];\n    r[i] = w[i];\n  end for;\n"
+PLACEMENTS = {
+    "ss": "  y = delay(a * x + b, {d1});\n  y2 = delay(x, {d2});\n" + _LOOP0,
+    "sl": "  y = delay(a * x + b, {d1});\n  y2 = b;\n  for i in 1:3 loop\n    v[i] = i * a * p;\n    w[i] = delay(3 * v[i] * p, {d2});\n    r[i] = w[i];\n  end for;\n",
+    "ls": "  for i in 1:3 loop\n    v[i] = i * a * p;\n    w[i] = delay(3 * v[i] * p, {d1});\n    r[i] = w[i];\n  end for;\n  y = delay(x, {d2});\n  y2 = b;\n",
+    "ll": "  y = b;\n  y2 = a;\n  for i in 1:3 loop\n    v[i] = i * a * p;\n    w[i] = delay(v[i], {d1});\n    r[i] = delay(3 * v[i] * p, {d2});\n  end for;\n",
+    "one": "  y = delay(x, {d1}) + 2 * delay(a, {d2});\n  y2 = b;\n" + _LOOP0,
+}
+M_OPTSETS = [("default", {}), ("aliases", {"detect_aliases": True}), ("expand", {"expand_vectors": True}), ("consts", {"replace_constant_values": True})]
+
+
+def multi_items(tier):
+    items = []
+    for (k1, (t1, o1)), (k2, (t2, o2)) in itertools.product(M_ATOMS.items(), repeat=2):
+        lit = "literal" in k1 or "literal" in k2
+        for pl, (on, o) in itertools.product(PLACEMENTS, M_OPTSETS):
+            if tier == "quick":
+                # default options: every pair in two placements, pairs with a literal in all five;
+                # other option sets: pairs with a literal, two scalar equations
+                if not ((on == "default" and (pl in ("ss", "sl") or lit)) or (lit and pl == "ss")):
+                    continue
+            items.append((f"multi:{k1},{k2}|{pl}|{on}", HEAD_M + PLACEMENTS[pl].format(d1=t1, d2=t2) + "end M;\n", o1 and o2, o, 1))
+    if tier == "thorough":  # three delays: a literal, an allowed and a disallowed duration in every order
+        for trip in itertools.permutations([("2.5", True), ("p", True), ("time", False)]):
+            body = "".join(f"  {lhs} = delay({e}, {t});\n" for lhs, e, (t, _) in zip(("y", "y2", "w[1]"), ("x", "a", "b"), trip))
+            body += "  for i in 1:3 loop\n    v[i] = i * a;\n    r[i] = v[i];\n  end for;\n  w[2] = 0;\n  w[3] = 0;\n"
+            items.append((f"multi3:{','.join(t for t, _ in trip)}|default", HEAD_M + body + "end M;\n", False, {}, 1))
+        for trip in itertools.permutations([("2.5", True), ("p", True), ("uf + c", True)]):
+            body = "".join(f"  {lhs} = delay({e}, {t});\n" for lhs, e, (t, _) in zip(("y", "y2", "w[1]"), ("x", "a", "b"), trip))
+            body += "  for i in 1:3 loop\n    v[i] = i * a;\n    r[i] = v[i];\n  end for;\n  w[2] = 0;\n  w[3] = 0;\n"
+            items.append((f"multi3:{','.join(t for t, _ in trip)}|default", HEAD_M + body + "end M;\n", True, {}, 1))
+    return items
+
+
+# ---- family "sequence": repeated transfer_model on one folder with the model cache on ------------------
+def sequence_items(tier):
+    items = []
+    durs = [d for d in durations("quick") if "+" not in d[0]] + [("param+time", "p + time", False), ("const+fixed_input", "c + uf", True)]
+    optsets = [("cache", {"cache": True}), ("cache+aliases", {"cache": True, "detect_aliases": True})]
+    if tier == "thorough":
+        optsets += [("cache+consts", {"cache": True, "replace_constant_values": True}), ("cache+expand", {"cache": True, "expand_vectors": True})]
+    for (k, dur, ok), loop, (on, o) in itertools.product(durs, (False, True), optsets):
+        items.append((f"seq:dur={k}|loop={int(loop)}|{on}", model_text(dur, loop, "expr"), ok, o, 3))
+    if tier == "thorough":
+        for (k, dur, ok) in durs:
+            items.append((f"seq:dur={k}|loop=0|codegen", model_text(dur, False, "expr"), ok, {"codegen": True}, 3))
+    return items
+
+
 class DelayCollector:
     """Reference: (expression values, duration value) of every delay() in generator visiting order."""
 
@@ -124,42 +261,123 @@ class DelayCollector:
             self.out.append((flat_any(self.ref.ev(n.operands[0])), self.ref.ev(n.operands[1])))
 
 
-def run_transfer(text, opts):
-    d = tempfile.mkdtemp(prefix="verif_c22_")
+def private_parse_cache():
+    """pymoca's parser keeps a sqlite text cache under $XDG_CACHE_HOME shared by every process on the
+    machine; under load it raises 'database is locked' (C02's subject, not this property's).  Give
+    each worker process its own cache folder below the run's scratch root."""
+    root = os.environ.get("VERIF_C22_SCRATCH")
+    if root:
+        d = os.path.join(root, f"xdg{os.getpid()}")
+        os.makedirs(d, exist_ok=True)
+        os.environ["XDG_CACHE_HOME"] = d
+
+
+def run_transfer(text, opts, ncalls=1):
+    """Outcomes (model or exception) of ncalls consecutive transfer_model calls on ONE scratch folder."""
+    private_parse_cache()
+    d = tempfile.mkdtemp(prefix="verif_c22_", dir=os.environ.get("VERIF_C22_SCRATCH"))
+    out = []
     try:
         with open(os.path.join(d, "M.mo"), "w") as f:
             f.write(text)
-        return api.transfer_model(d, "M", dict(opts))
+        for _ in range(ncalls):
+            try:
+                out.append(api.transfer_model(d, "M", dict(opts)))
+            except Exception as e:
+                out.append(e)
+        return out
     finally:
         shutil.rmtree(d, ignore_errors=True)
 
 
-def check(col, case, text, allowed, opts):
-    try:
-        m = run_transfer(text, opts)
-        accepted, err = True, None
-    except ValueError as e:
-        accepted, err = False, e
-        if "Delay durations" not in str(e):
-            col.harness_error(f"{case}: unexpected ValueError {e}")
+def binding_assumptions(ref, flat, opts):
+    """What a value-replacing pass is entitled to assume: the declared binding of the constants /
+    parameters it removes (and, for eliminate_constant_assignments, the equations 'v = literal')."""
+    out = []
+    for name, sym in flat.classes["M"].symbols.items():
+        val = sym.value
+        if ref.dims.get(name) or val is None or (isinstance(val, ast.Primary) and val.value is None):
+            continue
+        lit = isinstance(val, ast.Primary)
+        if "constant" in sym.prefixes:
+            on = opts.get("replace_constant_values") or (not lit and opts.get("replace_constant_expressions"))
+        elif "parameter" in sym.prefixes:
+            on = opts.get("replace_parameter_values") if lit else opts.get("replace_parameter_expressions")
+        else:
+            on = False
+        if on:
+            out.append(z3.Real(name) == ref.ev(val))
+    if opts.get("eliminate_constant_assignments"):
+        for eq in flat.classes["M"].equations:
+            if (isinstance(eq, ast.Equation) and isinstance(eq.left, ast.ComponentRef) and isinstance(eq.right, ast.Primary)
+                    and isinstance(eq.right.value, (int, float)) and not ref.dims.get(eq.left.name)):
+                out.append(ref.ev(eq.left) == ref.ev(eq.right))
+    return out
+
+
+def symbol_kind(flat, name):
+    sym = flat.classes["M"].symbols.get(name)
+    if sym is None:
+        return "unknown"
+    for k in ("parameter", "constant", "input"):
+        if k in sym.prefixes:
+            return k
+    return "variable"
+
+
+def check(col, case, text, allowed, opts, ncalls=1):
+    outcomes = run_transfer(text, opts, ncalls)
+    for i, r in enumerate(outcomes):
+        ccase = case if i == 0 else f"{case}|call{i + 1}"
+        if isinstance(r, ValueError):
+            accepted = False
+            if "Delay durations" not in str(r):
+                col.harness_error(f"{ccase}: unexpected ValueError {r}")
+                return
+        elif isinstance(r, Exception):
+            col.append("unsupported", f"{ccase}: {type(r).__name__}: {str(r)[-80:]}")
+            col.bump("unsupported_models")
+            # every enumerated model was probed to compile: environment trouble (sqlite) or a model that
+            # stopped compiling is neither a pass nor a C22 violation
+            col.harness_error(f"{ccase}: transfer_model raised {type(r).__name__}: {str(r)[-300:]}")
             return
-    except Exception as e:
-        col.append("unsupported", f"{case}: {type(e).__name__}: {str(e)[-80:]}")
-        col.bump("unsupported_models")
-        return
-    col.bump("acceptance_decisions")
-    if accepted != allowed:
-        col.violation(f"{case}:acceptance", f"transfer_model {'accepts' if accepted else 'rejects'} a model whose delay duration is "
-                      f"{'allowed' if allowed else 'not allowed'}", {"model_text": text, "options": opts})
-        return
-    if not accepted:
-        return
+        else:
+            accepted = True
+        col.bump("acceptance_decisions")
+        if accepted != allowed:
+            col.violation(f"{ccase}:acceptance", f"transfer_model {'accepts' if accepted else 'rejects'} a model whose delay duration is "
+                          f"{'allowed' if allowed else 'not allowed'}" + (f" (call #{i + 1} on the same folder)" if i else ""),
+                          {"model_text": text, "options": opts, "calls": i + 1})
+            return
+        if accepted:
+            verify_arguments(col, ccase, text, r, opts)
+
+
+def verify_arguments(col, case, text, m, opts):
+    """z3: every (expression, duration) output of m.delay_arguments_function equals the source argument."""
     flat = pipeline.flat_reference(text, "M")
     ref = Ref(flat, "M")
     dc = DelayCollector(ref)
     for eq in flat.classes["M"].equations:
         dc.visit_eq(eq)
-    f = m.delay_arguments_function
+    try:
+        f = m.delay_arguments_function
+    except Exception as e:
+        # the accepted model cannot even produce its delay arguments.  Class id = what is missing.
+        free = re.search(r"variables \[(.*?)\] are free", str(e))
+        if free:
+            kinds = sorted({symbol_kind(flat, n.strip()) for n in free.group(1).split(",")})
+            cid = "delay-args:free-symbol:" + "+".join(kinds)
+            what = (f"transfer_model accepts the model but Model.delay_arguments_function cannot be built: the delay arguments still "
+                    f"reference [{free.group(1)}] ({'/'.join(kinds)}) which simplify() removed from the model's variables (first seen: {case})")
+        else:
+            cid = f"{case}:delay-args:raises:{type(e).__name__}"
+            what = f"delay_arguments_function raises {type(e).__name__}: {str(e)[-200:]}"
+        col.violation(cid, what, {"model_text": text, "options": opts})
+        return
+    if opts.get("codegen"):
+        col.bump("programs")  # compiled C behind ca.external: verdict only, values outside the claim
+        return
     names = modelio.model_in_names(m)
     _, zo, div = sx2z3(f, names, ref.div)
     # flatten both sides to scalar (expression element, duration) pairs: expand_vectors turns a
@@ -173,9 +391,11 @@ def check(col, case, text, allowed, opts):
         col.violation(f"{case}:count", f"{len(impl_pairs)} scalar delay arguments for {len(ref_pairs)} delayed elements", {"model_text": text})
         return
     assume = div.nonzero()
+    equalities = binding_assumptions(ref, flat, opts)
     for canon, aliases in m.alias_relation:
         for a in aliases:
-            assume.append(z3.Real(a[1:]) == -z3.Real(canon) if a[0] == "-" else z3.Real(a) == z3.Real(canon))
+            equalities.append(z3.Real(a[1:]) == -z3.Real(canon) if a[0] == "-" else z3.Real(a) == z3.Real(canon))
+    assume = assume + equalities
     for i, ((ge, gd, oi, ok_, _), (we, wd)) in enumerate(zip(impl_pairs, ref_pairs)):
         for which, g, w, o_idx, k in (("expr", ge, we, oi, ok_), ("duration", gd, wd, oi + 1, 0)):
             col.bump("delay_argument_elements")
@@ -184,9 +404,10 @@ def check(col, case, text, allowed, opts):
                 continue
             r, mod = equiv.check(col, assume + [g != w])
             if r == "sat":
-                pt = equiv.point_from_model(mod, [g, w])
+                pt = equiv.point_from_model(mod, [g, w] + [t for e in equalities for t in e.children()])
                 conf = None
-                for p in equiv.perturbations(pt, 0):
+                # the solver's point satisfies the alias / binding equalities; perturbed points would not
+                for p in ([pt] if equalities else equiv.perturbations(pt, 0)):
                     try:
                         gv = modelio.eval_function(f, names, p)[o_idx][k]
                         wv = equiv.z3eval(w, pipeline._Default(p))
@@ -195,7 +416,7 @@ def check(col, case, text, allowed, opts):
                     if not equiv.close(gv, wv):
                         conf = {"point": p, "impl": gv, "ref": wv}
                         break
-                if conf and not len(list(m.alias_relation)):
+                if conf:
                     col.violation(f"{case}:arg{i}:{which}", "delay_arguments_function output differs from the source delay() argument", {"model_text": text, "options": opts, "detail": conf})
                 else:
                     col.note_inconclusive(f"{case}:arg{i}:{which} sat did not replay")
@@ -205,11 +426,11 @@ def check(col, case, text, allowed, opts):
 
 
 def work(item):
-    case, text, allowed, opts = item
+    case, text, allowed, opts, ncalls = item
     col = Collector()
     try:
-        check(col, case, text, allowed, opts)
-        col.sample({"case": case, "allowed": allowed}, 2)
+        check(col, case, text, allowed, opts, ncalls)
+        col.sample({"case": case, "allowed": allowed, "options": opts, "calls": ncalls}, 2)
     except EncodingGap as g:
         col.append("encoding_gaps", f"{case}: {g}")
     except Exception:
@@ -231,14 +452,51 @@ def main():
         for on, o in optsets:
             if args.tier == "quick" and on != "default" and ("+" in k and not ok):
                 continue
-            items.append((f"dur={k}|loop={int(loop)}|{ek}|{on}", model_text(dur, loop, ek), ok, o))
-    for col in run_parallel(work, items, args.jobs):
-        rep.merge(col)
+            items.append((f"dur={k}|loop={int(loop)}|{ek}|{on}", model_text(dur, loop, ek), ok, o, 1))
+    n_single = len(items)
+    fam = {"rewrite": rewrite_items(args.tier), "multi": multi_items(args.tier), "sequence": sequence_items(args.tier)}
+    for f in fam.values():
+        items += f
+    # longest items (three transfer_model calls, codegen compiles) first
+    items.sort(key=lambda it: (-it[4], "codegen" not in it[0]))
+    scratch = tempfile.mkdtemp(prefix="verif_c22_run_")
+    os.environ["VERIF_C22_SCRATCH"] = scratch
+    try:
+        for col in run_parallel(work, items, args.jobs):
+            rep.merge(col)
+    finally:
+        shutil.rmtree(scratch, ignore_errors=True)
     cov = rep.coverage
     cov["disagreements_checked"] = rep.queries.get("sat", 0)
-    cov["functions_encoded"] = ["api.transfer_model -> generate, simplify, Model._post_checks (executed)", "Model.delay_arguments_function (SX DAG -> z3)"]
-    cov["bounds"] = "one delay() per model; duration = each of 9 categories alone and every pair (sum; thorough also product/max) + 3 composite; inside/outside a 3-iteration for-loop; delayed variable or expression"
-    rep.assumptions += ["'depends on' is syntactic occurrence in the duration expression", "real arithmetic; divisors non-zero"]
+    cov["models_per_family"] = dict({"single": n_single}, **{k: len(v) for k, v in fam.items()})
+    cov["functions_encoded"] = ["api.transfer_model -> generate, simplify, Model._post_checks (executed)", "Model.delay_arguments_function (SX DAG -> z3)",
+                                "api.save_model / load_model for the sequence family (executed on real files)"]
+    thorough = args.tier == "thorough"
+    cov["bounds"] = (
+        "single: one delay() per model; duration = each of 9 categories alone and every pair (sum; thorough also product/max) + 3 composite; "
+        "inside/outside a 3-iteration for-loop; delayed variable or expression; options default / detect_aliases / expand_vectors"
+        + (" / expand_mx / replace_parameter+constant_values / unroll_loops=False" if thorough else "") + ". "
+        f"rewrite: {len(RW_ATOMS)} durations (11 that a pass rewrites: alias of state, negated alias, alias of alg. variable, alias of fixed "
+        "input, constant-assigned alg. variable, parameter / constant with expression binding and 4 combinations; + the 9 plain categories) "
+        f"x {len(RW_OPTSETS)} option sets (default, detect_aliases, replace_constant_values, replace_constant_expressions, "
+        "replace_parameter_expressions, eliminate_constant_assignments, expand_vectors, replace_parameter_values, all-inline) "
+        f"x {'6' if thorough else '2'} (placement, delayed expression) variants. "
+        f"multi: two delay() per model, all {len(M_ATOMS)}x{len(M_ATOMS)} ORDERED pairs of categories (9 + integer literal); "
+        + ("5 placements (2 scalar eqs, scalar+loop, loop+scalar, same loop, same equation) x 4 option sets; + 12 three-delay models"
+           if thorough else
+           "default options: 2 placements (2 scalar eqs, scalar then loop) for every pair, all 5 placements for pairs containing a literal; "
+           "detect_aliases / expand_vectors / replace_constant_values: pairs containing a literal, 2 scalar eqs") + ". "
+        "sequence: 14 durations x inside/outside loop x 3 consecutive transfer_model calls on one folder with cache=True"
+        + (", cache+detect_aliases, cache+replace_constant_values, cache+expand_vectors; codegen=True (verdict only) for 14 durations" if thorough
+           else " and cache+detect_aliases") + ". All numeric values unbounded reals."
+    )
+    rep.assumptions += ["'depends on' is syntactic occurrence in the duration expression; a variable that a pass eliminates counts as what it "
+                        "is replaced by (alias of a fixed input under detect_aliases, constant-assigned algebraic variable under "
+                        "eliminate_constant_assignments)",
+                        "value-replacing options may use the declared binding of the constants / parameters they remove",
+                        "the parser's sqlite text cache is private to each worker process (its concurrency is C02's subject)",
+                        "codegen: compiled C behind ca.external is not encoded, verdicts only",
+                        "real arithmetic; divisors non-zero"]
     if not cov.get("acceptance_decisions"):
         rep.harness_error("nothing decided")
     return rep.finish()
